@@ -23,12 +23,31 @@ EXPLANATION = ('must-pass-through rule on the comment path of str_to_partial_tok
                'exhaustive path enumeration of try_skip_comment')
 
 
+def stage1_reader(prog):
+    """The stage-1 rules (C06 R6.1/R6.2, C07 R7.1/R7.3/R7.4) model the input as the items of a peekable character iterator that the first
+    tokenizer stage reads with `next()`. Returns None when str_to_partial_tokens reads its input that way, else the reason it does not
+    (a front end rewritten over `&str` cursor operations - `Chars::as_str`, `split_once`, `strip_prefix` - is outside what these rules
+    can read; they then report one `unrecognised` obligation instead of verdicts that would mean nothing)."""
+    f = prog.fn('token::str_to_partial_tokens')
+    if f is None:
+        return 'token::str_to_partial_tokens not found'
+    reads = [t for _b, t in f.calls() if t['callee']['name'] == 'next' and not t['callee'].get('local') and 'Peekable' in (t['callee'].get('self_ty') or t['callee']['def'])]
+    if not reads:
+        return 'str_to_partial_tokens does not read its input with next() on a peekable character iterator'
+    return None
+
+
 def run(ctx):
     prog = ctx.prog()
     ctx.trust('rustc nightly MIR of /repo; char::is_whitespace is the Unicode White_Space property (std); Peekable<Chars> yields the input characters in order')
-    r71_73(ctx, prog)
+    why = stage1_reader(prog)
+    if why is not None:
+        ctx.unrecognised('R7.1', 'str_to_partial_tokens', 'reader', '%s: the rules on comment skipping and fusion of adjacent characters cannot be evaluated on this representation (stated limitation, DESIGN section 8)' % why)
+    else:
+        r71_73(ctx, prog)
     r72(ctx, prog)
-    r74(ctx, prog)
+    if why is None:
+        r74(ctx, prog)
     r73b(ctx, prog)
 
 
@@ -216,10 +235,12 @@ def r72(ctx, prog):
     okk = okk and any('is_whitespace' in x and x.endswith(', 0)') for x in bb.get('Literal', [])) and any('is_whitespace' in x and x.endswith('$otherwise)') for x in bb.get('Whitespace', []))
     ctx.check(okk, 'R7.2', 'default-arm:outcomes', 'outcomes', 'whitespace becomes PartialToken::Whitespace, everything else a Literal (branches %s)' % d['by_branch'], span=f.span)
     ctx.floor('R7.2', 'operator_char_arms', len([c for c in chars if c is not None]), 16)
-    spacey = sorted(repr(c) for c in chars if c is not None and c.isspace())
-    ctx.check(not spacey, 'R7.2', 'no-whitespace-operator-arm', 'whitespace-arm', 'no whitespace character is claimed by a fixed arm ahead of the Unicode classifier (found %s)' % spacey, span=f.span)
-    ws = [c for c, v in chars.items() if c is not None and v == 'Whitespace']
-    ctx.check(not ws, 'R7.2', 'no-fixed-whitespace-arm', 'fixed', 'no operator arm maps a fixed character to Whitespace ahead of the Unicode classifier', span=f.span)
+    # a character listed explicitly must get the class the Unicode classifier would give it: a whitespace character listed ahead of the
+    # classifier may only become Whitespace (a redundant `' ' => Whitespace` entry is harmless), and nothing else may become Whitespace
+    spacey = sorted(repr(c) for c, v in chars.items() if c is not None and c.isspace() and v != 'Whitespace')
+    ctx.check(not spacey, 'R7.2', 'no-whitespace-operator-arm', 'whitespace-arm', 'no whitespace character is claimed by a fixed arm for something other than Whitespace ahead of the Unicode classifier (found %s)' % spacey, span=f.span)
+    ws = [c for c, v in chars.items() if c is not None and v == 'Whitespace' and not c.isspace()]
+    ctx.check(not ws, 'R7.2', 'no-fixed-whitespace-arm', 'fixed', 'no fixed arm maps a character that is not whitespace to Whitespace (found %s)' % sorted(map(repr, ws)), span=f.span)
 
 
 def r73b(ctx, prog):
